@@ -9,6 +9,7 @@
 //     conflict) — a report on a field the table calls disciplined means the extractor is unsound (disagreement);
 //   - the discipline verdict the harness works with is the model's (`races.field`, one line per table field);
 //   - every undisciplined field should be confirmed by a report (listed in the evidence; thorough tier).
+//
 // Each distinct (field, function pair) is one violation `races:<type>.<field>:<f1>+<f2>`: a genuine data race.
 package main
 
@@ -207,7 +208,7 @@ func runJobs(c *hk.Ctx, bin string, jobs []job, parallel int) []jobResult {
 			cmd := exec.CommandContext(ctx, bin)
 			cmd.Env = append(os.Environ(), "VERIF_RACES_CHILD="+j.scenario, fmt.Sprintf("VERIF_RACES_SEED=%d", j.seed),
 				fmt.Sprintf("VERIF_RACES_SCALE=%d", j.scale), fmt.Sprintf("GOMAXPROCS=%d", j.procs),
-				"GORACE=halt_on_error=0 exitcode=0 history_size=5 log_path="+logBase, "VERIF_RACES_SUBLOG="+logBase+"_sub", "GOTRACEBACK=single")
+				"GORACE=halt_on_error=0 exitcode=0 history_size=7 log_path="+logBase, "VERIF_RACES_SUBLOG="+logBase+"_sub", "GOTRACEBACK=single")
 			var so, se bytes.Buffer
 			cmd.Stdout, cmd.Stderr = &so, &se
 			t0 := time.Now()
@@ -306,6 +307,7 @@ type finding struct {
 	Pointee             bool
 	Mapped              bool
 	External            bool // the racing memory belongs to another package and is not reached through a tracked field
+	Incomplete          bool // a stack could not be restored and the other one names no unsynchronised field: dropped
 	OneSided            bool // only one of the two stacks leads to the (unsynchronised) field: no model line
 	Where               [2]string
 	Text                string
@@ -397,13 +399,39 @@ func classify(r report, t *table, repo, harnessDir string) finding {
 		}
 	}
 	best := finding{Where: where, Text: r.text}
-	combos := [][2]int{{0, 0}, {0, 1}, {1, 0}, {0, 2}, {2, 0}, {1, 1}, {1, 2}, {2, 1}, {2, 2}}
-	for _, cb := range combos {
+	if len(r.acc[0].frames) == 0 || len(r.acc[1].frames) == 0 {
+		// "failed to restore the stack": only a direct hit of the remaining stack on an unsynchronised field counts
+		for k := 0; k < 2; k++ {
+			for _, s := range sets[k][0] {
+				if top[k] && t.undisc[s.Type+"."+s.Field] && (best.Field == "" || s.Type+"."+s.Field < best.Type+"."+best.Field) {
+					best = finding{Type: s.Type, Field: s.Field, F1: "?", F2: s.Fn, Pointee: true, Mapped: true, OneSided: true, Where: where, Text: r.text}
+				}
+			}
+		}
+		if !best.Mapped {
+			best.Incomplete = true
+		}
+		return best
+	}
+	// the direct hit first, whatever the field; then the indirect explanations, those through an unsynchronised
+	// field before the others
+	type try struct {
+		cb     [2]int
+		undisc bool
+	}
+	tries := []try{{[2]int{0, 0}, false}}
+	for _, u := range []bool{true, false} {
+		for _, cb := range [][2]int{{0, 1}, {1, 0}, {0, 2}, {2, 0}, {1, 1}, {1, 2}, {2, 1}, {2, 2}} {
+			tries = append(tries, try{cb, u})
+		}
+	}
+	for _, tr := range tries {
+		cb := tr.cb
 		bestScore := -1
 		direct := cb[0] == 0 && cb[1] == 0
 		for _, a := range sets[0][cb[0]] {
 			for _, b := range sets[1][cb[1]] {
-				if a.Type != b.Type || a.Field != b.Field {
+				if a.Type != b.Type || a.Field != b.Field || (tr.undisc && !t.undisc[a.Type+"."+a.Field]) {
 					continue
 				}
 				score := 0
@@ -569,7 +597,7 @@ func run(c *hk.Ctx) {
 	found := map[string]*finding{}
 	var order []string
 	perScenario := map[string]map[string]any{}
-	nReports := 0
+	nReports, nIncomplete := 0, 0
 	for _, r := range results {
 		info := perScenario[r.job.scenario]
 		if info == nil {
@@ -611,6 +639,10 @@ func run(c *hk.Ctx) {
 		for _, rep := range r.reports {
 			nReports++
 			f := classify(rep, t, repo, harnessDir)
+			if f.Incomplete {
+				nIncomplete++
+				continue
+			}
 			fp := f.fingerprint()
 			if found[fp] == nil {
 				f.Scenarios = map[string]int{}
@@ -724,6 +756,7 @@ func run(c *hk.Ctx) {
 	sort.Strings(unconfirmed)
 	sort.Strings(conf)
 	c.SetExtra("reports_total", nReports)
+	c.SetExtra("reports_without_usable_stacks", nIncomplete)
 	c.SetExtra("distinct_fingerprints", order)
 	c.SetExtra("undisciplined_confirmed_by_race_detector", conf)
 	c.SetExtra("undisciplined_not_confirmed_this_run", unconfirmed)
